@@ -1,18 +1,30 @@
 (* C09 -- system simulations are transparent.
    The flat wiring equivalent to a nesting is defined in Coq ([flatten], Oracle/SimOracle.v):
    external / exposed ports are resolved to the device output that really drives them.
-   Proved here, for every configuration:
-   (1) the devices of the flattening are exactly the devices the nested model visits, in the same
-       order; a configuration without system simulations is its own flattening;
-   (2) initial-tick transparency: in the master's initial tick the nested model updates exactly the
-       devices of the flattening, each once, at the initial time -- as the flat model does.
-   PARTIAL: equality of the full observation sequences (times AND values, over multi-tick
-   histories with callbacks and interrupts) between a nesting and its flattening is not proved;
-   it is decided per pair of runs of the real schedulers (codes 71/72) and per run by the oracles
-   shared with C03/C06/C12 -- [check_flat_pair] also checks that the harness's flat configuration
-   IS the Coq flattening (code 73).  Property theorems only. *)
-From TV Require Import Base Model.Wiring Model.Ticker Model.Component Model.Sim Oracle.SimCheck Oracle.SimOracle
-  Proofs.SimP Proofs.FlattenP.
+   Proved here:
+   (1) for every configuration, the devices of the flattening are exactly the devices the nested
+       model visits, in the same order; a configuration without system simulations is its own
+       flattening;
+   (2) for every configuration, initial-tick transparency: in the master's initial tick the nested
+       model updates exactly the devices of the flattening, each once, at the initial time;
+   (3) whole-run transparency for one system simulation ([C09_inline_transparent]): for every
+       configuration made of top-level devices and one system simulation holding devices
+       ([shape], decided by [shape_of]), every device family that reports each output port at most
+       once and reads its inputs as a dictionary, every initial time, horizon and number of master
+       ticks, the run of the nested configuration and the run of the configuration with the system
+       replaced by its contents ([inline]) perform the same device updates in the same order, at
+       the same simulation times, with equal inputs (as dictionaries) -- callbacks included; the
+       table-driven devices of the harness are such a family ([C09_inline_transparent_table]).
+   PARTIAL: (3) is about the master in simulation time without interrupts (Model/SimTime.v, which
+   Oracle/SimCheck.v compares with the full master model and the real scheduler per run); nestings
+   deeper than one level, several system simulations, wires straight from an external to an exposed
+   port and interrupts are decided per pair of runs of the real schedulers (codes 71/72) and per run
+   by the oracles shared with C03/C06/C12 -- [check_flat_pair] also checks that the harness's flat
+   configuration IS the Coq flattening (code 73) and, inside the scope of (3), that [inline] is
+   that flattening (code 74).  Property theorems only. *)
+From TV Require Import Base Model.Wiring Model.Ticker Model.Component Model.Sim Model.SimTime Model.Inline
+  Oracle.SimCheck Oracle.SimOracle
+  Proofs.SimP Proofs.FlattenP Proofs.EqvP Proofs.InlineP Proofs.InlineLoopP Proofs.InlineScopeP.
 Open Scope Z_scope.
 
 Theorem C09_flat_devices : forall cfg fuel lv, flat_order fuel cfg lv = devices_below cfg fuel lv.
@@ -50,3 +62,49 @@ Example C09_example :
               (2%positive, {| l_order := [(5%positive, KDev)]; l_conns := [(1, 1, 5, 1); (5, 1, 2, 1)]%positive |})] in
   flat_order 40 cfg 1 = [3; 5; 8]%positive /\ flat_conns cfg = [(5, 1, 8, 1); (3, 1, 5, 1)]%positive.
 Proof. vm_compute. split; reflexivity. Qed.
+
+(* (3) one system simulation replaced by its contents: same updates, same order, same times, equal inputs *)
+Theorem C09_inline_transparent : forall cfg c lvc pre inn post (devf : devfun) f n initial horizon,
+  shape_of cfg = Some (c, lvc, pre, inn, post) ->
+  (forall d k t i, NoDup (keys (fst (devf d k t i)))) ->
+  (forall d k t i i', NoDup (keys i) -> NoDup (keys i') -> eqv i i' -> devf d k t i = devf d k t i') ->
+  let '(_, obN, doneN) := sim_run cfg devf n (S f) initial horizon in
+  let '(_, obF, doneF) := sim_run (inline cfg c lvc) devf n (S f) initial horizon in
+  obs_rel obN obF /\ doneN = doneF.
+Proof.
+  intros cfg c lvc pre inn post devf f n initial horizon Hs Hnd Hext.
+  pose proof (run_inline cfg c lvc pre inn post (shape_of_sound _ _ _ _ _ _ Hs) devf Hnd Hext f n initial horizon) as H.
+  destruct (sim_run cfg devf n (S f) initial horizon) as [[sN obN] dN].
+  destruct (sim_run (inline cfg c lvc) devf n (S f) initial horizon) as [[sF obF] dF].
+  split; apply H.
+Qed.
+
+Theorem C09_inline_transparent_table : forall cfg c lvc pre inn post tab f n initial horizon,
+  shape_of cfg = Some (c, lvc, pre, inn, post) ->
+  let '(_, obN, doneN) := sim_run cfg (table_dev tab) n (S f) initial horizon in
+  let '(_, obF, doneF) := sim_run (inline cfg c lvc) (table_dev tab) n (S f) initial horizon in
+  obs_rel obN obF /\ doneN = doneF.
+Proof.
+  intros cfg c lvc pre inn post tab f n initial horizon Hs.
+  exact (C09_inline_transparent cfg c lvc pre inn post (table_dev tab) f n initial horizon Hs
+           (table_dev_nd tab) (table_dev_ext tab)).
+Qed.
+
+(* the premises hold somewhere and the conclusion is not empty: two devices around a system of two
+   devices, callbacks on three of them; 20 master ticks produce more than 30 device updates, and the
+   inlined configuration is the flattening *)
+Definition ex_cfg : config :=
+  [(1%positive, {| l_order := [(3%positive, KDev); (4%positive, KSys 2%positive); (8%positive, KDev)];
+                   l_conns := [(3, 1, 4, 1); (3, 2, 4, 2); (4, 1, 8, 1); (3, 1, 8, 2)]%positive |});
+   (2%positive, {| l_order := [(5%positive, KDev); (6%positive, KDev)];
+                   l_conns := [(1, 1, 5, 1); (1, 2, 6, 2); (5, 1, 6, 1); (6, 1, 2, 1); (5, 2, 2, 2)]%positive |})].
+Definition ex_tab : dev_table :=
+  [(3%positive, (11, 300, 1)); (5%positive, (12, 700, 1)); (6%positive, (13, 500, 4)); (8%positive, (14, 400, 0))].
+
+Example C09_inline_example :
+  shape_of ex_cfg = Some (4%positive, 2%positive, [3%positive], [5%positive; 6%positive], [8%positive]) /\
+  (let '(_, obN, doneN) := sim_run ex_cfg (table_dev ex_tab) 20 8 0 100000 in
+   (30 <? Z.of_nat (length obN)) = true /\
+   map fst obN = map fst (snd (fst (sim_run (inline ex_cfg 4%positive 2%positive) (table_dev ex_tab) 20 8 0 100000)))) /\
+  conns_set_eqb (flat_conns ex_cfg) (l_conns (level_of (inline ex_cfg 4%positive 2%positive) 1%positive)) = true.
+Proof. vm_compute. repeat split; reflexivity. Qed.
